@@ -639,6 +639,61 @@ fn level6(ctx: &Ctx, report: &mut Report) -> usize {
     n
 }
 
+/// Level 7: different contents are different strings.  One-character strings are what an implementation is
+/// most tempted to keep in a table of their own, keyed by something smaller than the character.  A pool of
+/// characters in which every pair agrees in *something* (the low eight bits of the code point, the last byte
+/// or the first byte of the encoding, the low seven bits, the length of the encoding) is produced by seven
+/// producers (literal, indexing, iteration with `for`, `iter().collect()`, slicing, `from_code_points`,
+/// `split`); for every producer pair and every ordered pair of different characters, first one then the other
+/// in the same interpreter: the two strings differ, each has its own code point, each equals its literal,
+/// and a map keeps them apart.
+fn level7(ctx: &Ctx, report: &mut Report) -> usize {
+    let chars: Vec<char> = vec!['0', '\u{130}', '\u{430}', '\u{2030}', '\u{1F030}', '1', '\u{531}', 'a', '\u{e1}', '\u{161}', '\u{a9}', '\u{e9}', '\u{169}', 'B', '\u{142}', '\u{7f}', '\u{80}', '\u{ff}', '\u{100}', '\u{7ff}', '\u{800}'];
+    let lit = |c: char| -> String { if (c as u32) < 0x20 || c as u32 == 0x7f || (c as u32 >= 0x80 && (c as u32) < 0xa0) { format!("String.from_code_points([{}])", c as u32) } else { format!("\"{}\"", c) } };
+    let producers: Vec<(&str, Box<dyn Fn(char) -> String + Sync + Send>)> = vec![
+        ("literal", Box::new(move |c| lit(c))),
+        ("indexing", Box::new(move |c| format!("(\"z\" + {})[1]", lit(c)))),
+        ("for", Box::new(move |c| format!("last_of({})", lit(c)))),
+        ("iter().collect()", Box::new(move |c| format!("({} + \"y\").iter().collect()[0]", lit(c)))),
+        ("slicing", Box::new(move |c| format!("(\"zz\" + {} + \"y\")[2..{}]", lit(c), 2 + c.len_utf8()))),
+        ("from_code_points", Box::new(move |c| format!("String.from_code_points([{}])", c as u32))),
+        ("split", Box::new(move |c| format!("({} + \"|\" + {}).split(\"|\")[1]", lit(if c == 'a' { 'b' } else { 'a' }), lit(c)))),
+    ];
+    let mut programs: Vec<(String, String)> = Vec::new();
+    for (na, pa) in &producers {
+        for (nb, pb) in &producers {
+            for &c1 in &chars {
+                let mut src = String::from("fn last_of(s) { var r = nil; for ch in s { r = ch; } return r; }\nvar wrong = 0;\nfn check(x, y, cx, cy, lx, ly) {\n  var ok = x != y && !(x == y) && x.to_code_points() == [cx] && y.to_code_points() == [cy] && x == lx && y == ly && {x: 1, y: 2}.len() == 2 && {x: 1, y: 2}.get(ly) == 2 && {x: 1, y: 2}.get(lx) == 1;\n  if !ok { wrong += 1; print(\"wrong: \" + String.from(cx) + \" then \" + String.from(cy) + \": \" + String.from(x.to_code_points()) + \" \" + String.from(y.to_code_points())); }\n}\n");
+                for &c2 in &chars {
+                    if c1 == c2 {
+                        continue;
+                    }
+                    src.push_str(&format!("check({}, {}, {}, {}, {}, {});\n", pa(c1), pb(c2), c1 as u32, c2 as u32, lit(c1), lit(c2)));
+                }
+                src.push_str("print(wrong);\n");
+                programs.push((src, format!("U+{:04X} by {}, then every other character by {}", c1 as u32, na, nb)));
+            }
+        }
+    }
+    let n = programs.len();
+    let results = par_map(&ctx.runner_checked, ctx.workers, programs.into_iter(), |runner, _i, (src, what)| {
+        let mut req = Request { op: "run".into(), snippets: vec![src.clone()], fuel: Some(5_000_000), ..Default::default() };
+        let obs = runner.call(&mut req);
+        let problem = match obs.resp().and_then(|r| r.results.get(0).cloned()) {
+            Some(r) if r.out == vec!["0".to_string()] && matches!(r.outcome, proto::Outcome::Ok) => None,
+            Some(r) => Some(format!("printed {:?}, ended with {:?}", r.out.iter().take(4).collect::<Vec<_>>(), r.outcome)),
+            None => Some(format!("run ended in {}", obs.describe())),
+        };
+        (src, what, problem)
+    });
+    for (src, what, problem) in results {
+        if let Some(p) = problem {
+            report.violations.push((format!("[level 7, different contents are different strings: {}] {}", what, p), json!({"family": "level7_different_contents", "request": {"op": "run", "snippets": [src]}, "problem": p})));
+        }
+    }
+    n
+}
+
 pub fn run(ctx: &Ctx) -> Report {
     let mut report = Report::new();
     let (states, transitions, max_cap, max_chain, samples) = level1(ctx, &mut report);
@@ -647,9 +702,11 @@ pub fn run(ctx: &Ctx) -> Report {
     let n4 = level4(ctx, &mut report);
     let n5 = level5(ctx, &mut report);
     let n6 = level6(ctx, &mut report);
+    let n7 = level7(ctx, &mut report);
+    report.cov("level7_programs_different_contents_are_different_strings", json!(n7));
     report.cov("level6_runs_of_the_command_line_host", json!(n6));
     let transitions = transitions + t3;
-    let n2 = n2 + n4 + n5;
+    let n2 = n2 + n4 + n5 + n7;
     report.cov("level5_histories", json!(n5));
     report.cov("level3_ladder_length", json!(n3));
     report.cov("level3_lookups_and_insertions_checked", json!(t3));
